@@ -117,13 +117,15 @@ def _is_int(v):
 def shift_tol(case, integer):
     """Per-axis tolerance (px) on the estimated shift.
 
-    integer shifts ("exactly"): float64 numpy 1e-6 (measured <= 2e-11).  The torch estimator builds
+    integer shifts ("exactly"): float64 numpy 1e-6 (measured <= 6e-11).  The torch estimator builds
     its upsampling kernels in float32 whatever the input dtype, so its parabolic refinement on the
     1/up grid carries rounding noise that grows with up: measured <= 1.3e-3 (float64 input) and
-    <= 2.8e-2 (float32 input) upsampled pixels over 24 000 cases; asserted 0.02 resp. 0.3 upsampled
-    pixels.  For up <= 2 it rounds to half pixels and is exact.
-    real shifts: one upsampled pixel, 1/up (0.5 px for up == 1, where a peak pixel + parabola
-    estimate cannot be off by more when the guards hold)."""
+    <= 2.8e-2 (float32 input) upsampled pixels over 24 000 probe cases, <= 0.046 of the asserted
+    value over 245 000 generated cases; asserted 0.02 resp. 0.3 upsampled pixels.  For up <= 2 it
+    rounds to half pixels and is exact.
+    real shifts: one upsampled pixel, 1/up; 0.5 px for up == 1.  Inside the guards the coarse
+    stage (pixel peak + parabola, torch: rounded to half pixels) is off by <= 0.15 (+0.25) px by
+    construction, and the upsampled stage was measured <= 0.05/up over 245 000 cases."""
     up = case["up"]
     if integer:
         if case["est"] == "numpy" or up <= 2:
@@ -298,4 +300,4 @@ def search(ctx):
     tight = not ctx.is_open(KEY_MAX_SHIFT)
     if not tight:
         ctx.exclude(KEY_MAX_SHIFT)
-    core.run_given(ctx, "cases", cases(tight_margins=tight), lambda c: check(ctx, c), ctx.n(6000, 60000))
+    core.run_given(ctx, "cases", cases(tight_margins=tight), lambda c: check(ctx, c), ctx.n(5000, 60000))
